@@ -127,7 +127,7 @@ def _frames(ctx, rng):
             for _ in range(1 if quick else 4):
                 ln = rng.choice([0, 1, 2, 3, 8, 15, 16, 19, 21, 22, 30])
                 yield "id-type", _rebuild(bytes([rid]) + rng.randbytes(ln), ft, rng.choice(["crc", "sum"]))
-    for _ in range(300 if quick else 30000):
+    for _ in range(300 if quick else 150000):
         rid = rng.choice([0xC0, 0xC1, 0xB5, 0xB0, 0xB1, 0xA0, 0xA1, rng.randrange(256)])
         yield "random-body", _rebuild(bytes([rid]) + rng.randbytes(rng.randint(0, 60)), rng.choice([2, 3, 4, 5, 6]), rng.choice(["crc", "sum"]))
 
@@ -146,13 +146,13 @@ def generate(ctx, rng):
     # the property / capability / short-state families again, all of them on a client with capabilities
     fr = [x for x in _frames(ctx, rng) if x[0].startswith(("props-", "short-state", "trunc-body-props", "trunc-body-state", "group", "caps-value"))]
     rng.shuffle(fr)
-    fr = fr[: (600 if ctx.tier == "quick" else 6000)]
+    fr = fr[: (600 if ctx.tier == "quick" else 30000)]
     for i in range(0, len(fr), BATCH):
         n += 1
         yield ("frames-caps", n), {"kind": "frames", "items": [{"family": f, "frame": b} for f, b in fr[i:i + BATCH]], "with_caps": True}
     # mixes
     pool = [f for _, f in _frames_small(rng)]
-    for j in range(200 if ctx.tier == "quick" else 6000):
+    for j in range(200 if ctx.tier == "quick" else 30000):
         st = {**acstate.default_state(), "power": rng.random() < 0.5, "mode": rng.randint(1, 5), "target_temperature": rng.choice([17.0, 22.5, 30.0]),
               "fan": rng.choice([20, 40, 55, 60, 80, 102]), "eco": rng.random() < 0.5, "target_humidity": rng.randint(30, 70)}
         before = [rng.choice(pool) for _ in range(rng.randint(0, 3))]
@@ -168,7 +168,7 @@ def generate(ctx, rng):
     unsol = _unsolicited_b5(rng)
     # a (malformed but decodable) capability *query response* ahead of the genuine one is legitimately the one used
     noncaps = [f for f in pool if not (len(f) > 10 and f[10] == 0xB5 and f[9] == acframe.FT_QUERY)][:60]
-    for j in range(60 if ctx.tier == "quick" else 1500):
+    for j in range(60 if ctx.tier == "quick" else 7500):
         before = [rng.choice(unsol + noncaps) for _ in range(rng.randint(1, 3))]
         after = [rng.choice(unsol + noncaps) for _ in range(rng.randint(0, 2))]
         # a later *well-formed* capabilities response would legitimately not be merged; keep only non-capability classes after
@@ -187,7 +187,7 @@ def generate(ctx, rng):
             for claimed in (3, 13, 255):
                 badprops.append(_rebuild(bytes([rng.choice([0xB1, 0xB0]), 1, pid & 0xFF, pid >> 8, 0x00, claimed]) + bytes(range(1, 1 + have))))
     badprops += [_rebuild(b"\xb1"), _rebuild(b"\xb0"), _rebuild(b"\xb1\x03"), _rebuild(b"\xb1\x01\x39")]
-    for j in range(150 if ctx.tier == "quick" else 4000):
+    for j in range(150 if ctx.tier == "quick" else 20000):
         yield ("propsmix", j), {"kind": "propsmix", "ud": rng.choice([0, 1, 25, 50, 75, 100]), "lr": rng.choice([0, 1, 25, 50, 75, 100]),
                                 "before": [rng.choice(badprops) for _ in range(rng.randint(0, 2))],
                                 "after": [rng.choice(badprops) for _ in range(rng.randint(0, 3))], "one_frame": j % 2 == 0}
